@@ -380,3 +380,413 @@ Proof.
   - apply in_or_app. right. left. reflexivity.
   - unfold args_ok in *. cbn in *. congruence.
 Qed.
+
+(* ================================================================== parser_method! *)
+
+Definition lits (b : branch) : Prop :=
+  b_pats b <> [] /\ Forall (fun p => lit_ok p = true) (b_pats b).
+
+Lemma pats_diag_nil ps :
+  pats_diag ps = [] <-> ps <> [] /\ Forall (fun p => lit_ok p = true) ps.
+Proof.
+  unfold pats_diag. destruct ps as [| p r].
+  - split; [ discriminate | intros [H _]; congruence ].
+  - destruct (forallb lit_ok (p :: r)) eqn:Hf.
+    + split; [ | reflexivity ]. intros _. split; [ discriminate | ].
+      apply Forall_forall. apply forallb_forall. exact Hf.
+    + split; [ discriminate | ]. intros [_ H]. rewrite Forall_forall in H.
+      rewrite <- forallb_forall in H. congruence.
+Qed.
+
+Lemma mm_branches_nil f prev : trim_form f = false ->
+  (method_macro_branches f prev = [] <-> Forall lits prev).
+Proof.
+  intros Hf. unfold method_macro_branches. rewrite Hf.
+  induction prev as [| b r IH]; cbn.
+  - split; [ constructor | reflexivity ].
+  - rewrite app_nil_iff, pats_diag_nil, IH. split.
+    + intros [H1 H2]. constructor; auto.
+    + intros H. inversion H; subst. auto.
+Qed.
+
+Lemma wild_only_iff b : wild_only b = true <-> b_pats b = [PWild].
+Proof.
+  unfold wild_only. destruct (b_pats b) as [| p [| q r]].
+  - split; [ discriminate | discriminate ].
+  - destruct p; split; intros H; try discriminate H; try reflexivity; inversion H.
+  - destruct p; split; intros H; try discriminate H; inversion H.
+Qed.
+
+Lemma is_nil_iff {A} (l : list A) : is_nil l = true <-> l = [].
+Proof. destruct l; cbn; split; intros H; try reflexivity; discriminate H. Qed.
+
+Lemma mid_not_wild b : mid_ok b -> wild_only b = false.
+Proof.
+  intros (_ & Hl & _). destruct (wild_only b) eqn:E; [ | reflexivity ].
+  apply wild_only_iff in E. rewrite E in Hl. inversion Hl as [| ? ? H1 _]; subst. discriminate H1.
+Qed.
+
+Lemma normalize_nil f : trim_form f = false -> forall bs prev,
+  normalize f prev bs = [] <->
+  exists init d, bs = init ++ [d] /\ b_pats d = [PWild] /\ Forall mid_ok init /\ Forall lits prev.
+Proof.
+  intros Hf. induction bs as [| b rest IH]; intros prev.
+  - cbn [normalize]. split.
+    + destruct prev; unfold method_macro_pats; rewrite ?Hf; discriminate.
+    + intros (init & d & H & _). destruct init; discriminate H.
+  - cbn [normalize].
+    destruct (wild_only b && (b_comma b || is_nil rest)) eqn:Harm2.
+    + apply andb_prop in Harm2. destruct Harm2 as [Hw Hc].
+      rewrite app_nil_iff, (mm_branches_nil f prev Hf). split.
+      * intros [Hafter Hprev].
+        assert (Hrest : rest = []).
+        { destruct rest; [ reflexivity | ]. cbn [is_nil] in *. rewrite orb_false_r in Hc.
+          rewrite Hc in Hafter. discriminate Hafter. }
+        subst rest. exists [], b. repeat split; auto. apply wild_only_iff; exact Hw.
+      * intros (init & d & Heq & Hd & Hinit & Hprev). destruct init as [| b' init].
+        -- cbn in Heq. inversion Heq; subst. split; [ | exact Hprev ].
+           cbn [is_nil negb]. rewrite andb_false_r. reflexivity.
+        -- cbn in Heq. inversion Heq; subst. inversion Hinit as [| ? ? Hb _]; subst.
+           apply mid_not_wild in Hb. congruence.
+    + assert (Hnotdefault : forall d, b :: rest = [] ++ [d] -> b_pats d = [PWild] -> False).
+      { intros d Heq Hd. cbn in Heq. inversion Heq; subst.
+        apply wild_only_iff in Hd. rewrite Hd in Harm2. cbn in Harm2. rewrite orb_true_r in Harm2.
+        discriminate Harm2. }
+      assert (Hstep : (if is_nil rest then [d0 KPmMore] else []) ++ normalize f (prev ++ [b]) rest = [] <->
+                      exists init d, rest = init ++ [d] /\ b_pats d = [PWild] /\ Forall mid_ok init /\
+                                     Forall lits (prev ++ [b])).
+      { rewrite app_nil_iff, IH. split.
+        - intros [_ H]. exact H.
+        - intros (init & d & -> & H). split; [ | exists init, d; tauto ].
+          destruct init; reflexivity. }
+      assert (Hfin : (b_comma b = true \/ b_body b = BBlock) ->
+                     ((exists init d, rest = init ++ [d] /\ b_pats d = [PWild] /\ Forall mid_ok init /\
+                                      Forall lits (prev ++ [b])) <->
+                      (exists init d, b :: rest = init ++ [d] /\ b_pats d = [PWild] /\ Forall mid_ok init /\
+                                      Forall lits prev))).
+      { intros Hcb. split.
+        - intros (init & d & -> & Hd & Hinit & Hprev). apply Forall_app in Hprev.
+          destruct Hprev as [Hprev Hb]. inversion Hb as [| ? ? [Hb1 Hb2] _]; subst.
+          exists (b :: init), d. repeat split; auto. constructor; [ | exact Hinit ].
+          repeat split; auto.
+        - intros (init & d & Heq & Hd & Hinit & Hprev). destruct init as [| b' init].
+          + exfalso. eapply Hnotdefault; eauto.
+          + cbn in Heq. inversion Heq; subst. inversion Hinit as [| ? ? (Hb1 & Hb2 & _) Hinit']; subst.
+            exists init, d. repeat split; auto. apply Forall_app. split; [ exact Hprev | ].
+            constructor; [ split; auto | constructor ]. }
+      destruct (b_comma b) eqn:Hcomma.
+      * rewrite Hstep. apply Hfin. left. reflexivity.
+      * destruct (b_body b) eqn:Hbody.
+        -- split; [ discriminate | ]. intros (init & d & Heq & Hd & Hinit & _).
+           destruct init as [| b' init].
+           ++ exfalso. eapply Hnotdefault; eauto.
+           ++ cbn in Heq. inversion Heq; subst. inversion Hinit as [| ? ? (_ & _ & [Hc | Hc]) _]; subst; congruence.
+        -- rewrite Hstep. apply Hfin. right. reflexivity.
+Qed.
+
+Lemma normalize_trim f : trim_form f = true -> forall bs prev, normalize f prev bs <> [].
+Proof.
+  intros Hf. induction bs as [| b rest IH]; intros prev; cbn [normalize].
+  - destruct prev; unfold method_macro_pats; rewrite ?Hf; cbn; discriminate.
+  - destruct (wild_only b && (b_comma b || is_nil rest)).
+    + unfold method_macro_branches. rewrite Hf. intros H. apply app_eq_nil in H. destruct H as [_ H].
+      discriminate H.
+    + destruct (b_comma b).
+      * intros H. apply app_eq_nil in H. destruct H as [_ H]. revert H. apply IH.
+      * destruct (b_body b); [ discriminate | ].
+        intros H. apply app_eq_nil in H. destruct H as [_ H]. revert H. apply IH.
+Qed.
+
+Theorem parser_method_accepts_iff f inp : pm_expands f inp = [] <-> pm_ok f inp.
+Proof.
+  assert (Hmatch : trim_form f = false -> f <> Bogus ->
+                   (pm_expands f inp = [] <->
+                    exists init d, inp = Branches (init ++ [d]) /\ Forall mid_ok init /\ b_pats d = [PWild])).
+  { intros Hf Hb.
+    assert (Hexp : pm_expands f inp = match inp with
+                                      | PatsOnly ps => method_macro_pats f ps
+                                      | Branches bs => normalize f [] bs end)
+      by (destruct f; try congruence; reflexivity).
+    rewrite Hexp. destruct inp as [ps | bs].
+    - unfold method_macro_pats. rewrite Hf. split; [ discriminate | ].
+      intros (init & d & H & _). discriminate H.
+    - rewrite (normalize_nil f Hf). split.
+      + intros (init & d & -> & Hd & Hi & _). exists init, d. auto.
+      + intros (init & d & Heq & Hi & Hd). inversion Heq; subst. exists init, d. repeat split; auto. }
+  assert (Htrim : trim_form f = true ->
+                  (pm_expands f inp = [] <->
+                   exists ps, ps <> [] /\ Forall (fun p => lit_ok p = true) ps /\ inp = PatsOnly ps)).
+  { intros Hf.
+    assert (Hexp : pm_expands f inp = match inp with
+                                      | PatsOnly ps => method_macro_pats f ps
+                                      | Branches bs => normalize f [] bs end)
+      by (destruct f; try discriminate Hf; reflexivity).
+    rewrite Hexp. destruct inp as [ps | bs].
+    - unfold method_macro_pats. rewrite Hf, pats_diag_nil. split.
+      + intros [H1 H2]. exists ps. auto.
+      + intros (ps' & H1 & H2 & Heq). inversion Heq; subst. auto.
+    - split.
+      + intros H. exfalso. revert H. apply normalize_trim. exact Hf.
+      + intros (ps & _ & _ & H). discriminate H. }
+  destruct f; cbn [pm_ok];
+    try (apply Hmatch; [ reflexivity | discriminate ]);
+    try (apply Htrim; reflexivity).
+  cbn. split; [ discriminate | intros [] ].
+Qed.
+
+Lemma pm_rejects f inp : ~ pm_ok f inp -> pm_expands f inp <> [].
+Proof. intros H E. apply H. apply parser_method_accepts_iff. exact E. Qed.
+
+Definition match_form (f : pm_form) : Prop := trim_form f = false /\ f <> Bogus.
+
+Lemma pm_ok_match f inp : match_form f ->
+  (pm_ok f inp <-> exists init d, inp = Branches (init ++ [d]) /\ Forall mid_ok init /\ b_pats d = [PWild]).
+Proof. intros [Hf Hb]. destruct f; try discriminate Hf; try congruence; reflexivity. Qed.
+
+(** no default branch at all: rejected; with the default appended: accepted *)
+Theorem pm_flip_missing_default f init d :
+  match_form f -> Forall mid_ok init -> b_pats d = [PWild] ->
+  pm_expands f (Branches init) <> [] /\ pm_expands f (Branches (init ++ [d])) = [].
+Proof.
+  intros Hf Hi Hd. split.
+  - apply pm_rejects. rewrite (pm_ok_match f _ Hf). intros (init' & d' & Heq & _ & Hd').
+    inversion Heq as [Heq']. subst init. apply Forall_app in Hi. destruct Hi as [_ Hi].
+    inversion Hi as [| ? ? Hm _]; subst. apply mid_not_wild in Hm.
+    apply wild_only_iff in Hd'. congruence.
+  - apply parser_method_accepts_iff. rewrite (pm_ok_match f _ Hf). exists init, d. auto.
+Qed.
+
+(** anything after the default branch: rejected *)
+Theorem pm_flip_misplaced_default f init d b post :
+  match_form f -> Forall mid_ok init -> b_pats d = [PWild] -> mid_ok b ->
+  pm_expands f (Branches (init ++ d :: b :: post)) <> [] /\ pm_expands f (Branches (init ++ [d])) = [].
+Proof.
+  intros Hf Hi Hd Hb. split.
+  - apply pm_rejects. rewrite (pm_ok_match f _ Hf). intros (init' & d' & Heq & Hi' & Hd').
+    inversion Heq as [Heq']. clear Heq.
+    assert (Hin : In d init').
+    { assert (Hr : removelast (init ++ d :: b :: post) = init') by (rewrite Heq'; apply removelast_last).
+      rewrite removelast_app in Hr by discriminate. cbn [removelast] in Hr.
+      rewrite <- Hr. apply in_or_app. right. left. reflexivity. }
+    rewrite Forall_forall in Hi'. specialize (Hi' d Hin). apply mid_not_wild in Hi'.
+    apply wild_only_iff in Hd. congruence.
+  - apply parser_method_accepts_iff. rewrite (pm_ok_match f _ Hf). exists init, d. auto.
+Qed.
+
+(** a pattern that is not a string literal, anywhere before the default: rejected *)
+Theorem pm_rejects_nonliteral f pre b post d p :
+  match_form f -> In p (b_pats b) -> lit_ok p = false ->
+  pm_expands f (Branches (pre ++ b :: post ++ [d])) <> [].
+Proof.
+  intros Hf Hin Hp. apply pm_rejects. rewrite (pm_ok_match f _ Hf).
+  intros (init' & d' & Heq & Hi' & _). inversion Heq as [Heq']. clear Heq.
+  replace (pre ++ b :: post ++ [d]) with ((pre ++ b :: post) ++ [d]) in Heq'
+    by (rewrite <- app_assoc; reflexivity).
+  apply app_inj_tail in Heq'. destruct Heq' as [<- _].
+  rewrite Forall_forall in Hi'.
+  assert (Hm : mid_ok b) by (apply Hi'; apply in_or_app; right; left; reflexivity).
+  destruct Hm as (_ & Hl & _). rewrite Forall_forall in Hl. specialize (Hl p Hin). congruence.
+Qed.
+
+Theorem pm_trim_accepts_iff f ps : trim_form f = true ->
+  (pm_expands f (PatsOnly ps) = [] <-> ps <> [] /\ Forall (fun p => lit_ok p = true) ps).
+Proof.
+  intros Hf. rewrite parser_method_accepts_iff.
+  destruct f; try discriminate Hf; cbn [pm_ok]; split.
+  1,3: intros (ps' & H1 & H2 & Heq); inversion Heq; subst; auto.
+  all: intros [H1 H2]; exists ps; auto.
+Qed.
+
+(* ================================================================== destructure! *)
+
+(** R1: what "the pattern fits the type" means (the type is already stripped of references) *)
+Definition pat_fits (E : env) (ps : pshape) (t : ty) : Prop :=
+  match ps, t with
+  | PSStruct p fs, TNamed q => p = q /\ forall f, In f fs <-> In f (fields E q)
+  | PSTuple k, TTuple k' => k = k'
+  | PSArray k false, TArray n => k = n
+  | PSArray k true, TArray n => k <= n
+  | _, _ => False
+  end.
+
+Lemma existsb_rest_false es : existsb is_rest es = false <-> no_rest es.
+Proof.
+  unfold no_rest. induction es as [| e r IH]; cbn.
+  - split; [ constructor | reflexivity ].
+  - rewrite orb_false_iff, IH. split.
+    + intros [H1 H2]. constructor; auto.
+    + intros H. inversion H; subst. auto.
+Qed.
+
+Lemma no_rest_filter es : no_rest es -> filter is_rest es = [].
+Proof.
+  unfold no_rest. induction 1 as [| e r He _ IH]; cbn; [ reflexivity | ]. rewrite He. exact IH.
+Qed.
+
+Lemma walk_no_rest : forall es n, no_rest es ->
+  walk_names n es = if Nat.leb (length es) n then WOk else WNoMatch.
+Proof.
+  unfold no_rest. induction es as [| e r IH]; intros n H.
+  - cbn. reflexivity.
+  - inversion H as [| ? ? He Hr]; subst. cbn [walk_names length].
+    destruct e; try discriminate He. destruct n; [ cbn; reflexivity | ].
+    rewrite (IH n Hr). cbn. reflexivity.
+Qed.
+
+Section RustcOracle.
+  (** The type checker, as far as the expansion of [destructure!] relies on it.  These three
+      behaviours of rustc are ASSUMED here (they are what the compile runs of the
+      correspondence validate, and what [check_diag] reads concretely):
+      - R1_exhaustive_patterns : a struct pattern WITHOUT `..`, a tuple pattern, an array
+        pattern is accepted for a value of type T, &T, &&T.. exactly when it names every
+        declared field and no other / has the arity / fits the length;
+      - R2_no_ref_coercion : where the expansion equates two types (assert_same_type,
+        `let _: T = v`, array_into_phantom) T and &T are different types;
+      - R3_inherent_iff_drop : method resolution on __GetImpls_IWRHQLPNNIEU8C6W<T> picks the
+        inherent method (declared `where T: Drop`) exactly when T implements Drop. *)
+  Variable E : env.
+  Variable rustc_pat : pshape -> ty -> bool.
+  Variable rustc_same : ty -> ty -> bool.
+  Variable rustc_probe_inherent : ty -> bool.
+  Hypothesis R1_exhaustive_patterns : forall ps t, rustc_pat ps t = true <-> pat_fits E ps (peel t).
+  Hypothesis R2_no_ref_coercion : forall a b, rustc_same a b = true <-> a = b.
+  Hypothesis R3_inherent_iff_drop : forall t, rustc_probe_inherent t = true <-> impls_drop_ty E t.
+
+  Definition check_holds (c : check) : bool :=
+    match c with
+    | CPat ps t => rustc_pat ps t
+    | CSame a b => rustc_same a b
+    | CNotDrop t => negb (rustc_probe_inherent t)     (* the trait method's return type is expected *)
+    end.
+
+  (** the program compiles: the expansion is not a compile_error! and every check passes *)
+  Definition accepts (d : destr) : bool :=
+    match destructure_expands d with
+    | inl _ => false
+    | inr cs => forallb check_holds cs
+    end.
+
+  Lemma ann_check_holds d :
+    forallb check_holds (ann_check d) = true <-> (forall a, d_ann d = Some a -> a = d_ty d).
+  Proof.
+    unfold ann_check. destruct (d_ann d) as [a |]; cbn.
+    - rewrite andb_true_r, R2_no_ref_coercion. split.
+      + intros -> a' H. inversion H. reflexivity.
+      + intros H. apply H. reflexivity.
+    - split; [ intros _ a H; discriminate H | reflexivity ].
+  Qed.
+
+  Lemma declared_ann d dflt : (forall a, d_ann d = Some a -> a = d_ty d) ->
+    declared d dflt = match d_ann d with Some _ => d_ty d | None => dflt end.
+  Proof. unfold declared. intros H. destruct (d_ann d); [ apply H; reflexivity | reflexivity ]. Qed.
+
+  Lemma not_drop_iff t : negb (rustc_probe_inherent t) = true <-> ~ impls_drop_ty E t.
+  Proof.
+    rewrite negb_true_iff, <- R3_inherent_iff_drop. destruct (rustc_probe_inherent t); split; congruence.
+  Qed.
+
+  Lemma struct_checks_iff d fs : d_ann d = None \/ (exists a, d_ann d = Some a) ->
+    forallb check_holds
+      (ann_check d ++ [CPat (PSStruct (d_path d) fs) (declared d (d_ty d));
+                       CSame (TNamed (d_path d)) (declared d (d_ty d));
+                       CNotDrop (declared d (d_ty d))]) = true <->
+    (forall a, d_ann d = Some a -> a = d_ty d) /\ d_ty d = TNamed (d_path d) /\
+    ~ impls_drop_ty E (d_ty d) /\ (forall f, In f fs <-> In f (fields E (d_path d))).
+  Proof.
+    intros _. rewrite forallb_app, andb_true_iff, ann_check_holds. cbn [forallb check_holds].
+    rewrite !andb_true_iff, R1_exhaustive_patterns, R2_no_ref_coercion, not_drop_iff. split.
+    - intros (Hann & Hpat & Hsame & Hdrop & _).
+      rewrite (declared_ann d _ Hann) in *.
+      assert (Ht : d_ty d = TNamed (d_path d)) by (destruct (d_ann d); congruence).
+      assert (Hdecl : match d_ann d with Some _ => d_ty d | None => d_ty d end = d_ty d) by (destruct (d_ann d); reflexivity).
+      rewrite Hdecl in *. rewrite Ht in Hpat, Hdrop. cbn in Hpat. destruct Hpat as [_ Hf].
+      split; [ exact Hann | split; [ exact Ht | split; [ rewrite Ht; exact Hdrop | exact Hf ] ] ].
+    - intros (Hann & Ht & Hdrop & Hf). split; [ exact Hann | ].
+      rewrite (declared_ann d _ Hann).
+      assert (Hdecl : match d_ann d with Some _ => d_ty d | None => d_ty d end = d_ty d) by (destruct (d_ann d); reflexivity).
+      rewrite Hdecl, Ht. cbn. rewrite Ht in Hdrop.
+      split; [ split; [ reflexivity | exact Hf ] | split; [ reflexivity | split; [ exact Hdrop | reflexivity ] ] ].
+  Qed.
+
+  Lemma ann_cases d : d_ann d = None \/ (exists a, d_ann d = Some a).
+  Proof. destruct (d_ann d); [ right; eauto | left; reflexivity ]. Qed.
+
+  (** destructure! compiles exactly for a by-value, non-Drop value whose fields / elements the
+      pattern lists completely, without `..` (one `..` allowed in arrays) — for patterns with
+      at least one element (the empty patterns are a separate, weaker case: see
+      [empty_pattern_unguarded]) *)
+  Theorem accepts_iff d : d_elems d <> [] -> (accepts d = true <-> destr_ok E d).
+  Proof.
+    intros Hne. unfold accepts, destructure_expands, destr_ok, rest_ok, fields_match.
+    destruct (d_shape d) eqn:Hshape.
+    - (* braced *)
+      destruct (d_elems d) as [| e0 es0] eqn:Hes; [ congruence | ].
+      destruct (existsb is_rest (e0 :: es0)) eqn:Hrest.
+      + split; [ discriminate | ]. intros (Hr & _). apply existsb_rest_false in Hr. congruence.
+      + apply existsb_rest_false in Hrest. rewrite struct_checks_iff by apply ann_cases. split.
+        * intros (Hann & Ht & Hdrop & Hf).
+          split; [ exact Hrest | split; [ exact Hann | ] ]. rewrite Ht. cbn [is_ref]. rewrite Ht in Hdrop.
+          split; [ reflexivity | split; [ exact Hdrop | split; [ reflexivity | exact Hf ] ] ].
+        * intros (_ & Hann & Href & Hdrop & Hfm).
+          destruct (d_ty d) as [q | | |] eqn:Ht; try contradiction. destruct Hfm as [<- Hf].
+          split; [ exact Hann | split; [ reflexivity | split; [ exact Hdrop | exact Hf ] ] ].
+    - (* tuple struct *)
+      destruct (d_elems d) as [| e0 es0] eqn:Hes; [ congruence | ].
+      destruct (existsb is_rest (e0 :: es0)) eqn:Hrest.
+      + assert (Hno : ~ no_rest (e0 :: es0)) by (intros H; apply existsb_rest_false in H; congruence).
+        destruct (walk_names 16 (e0 :: es0)); (split; [ discriminate | intros ((Hr & _) & _); contradiction ]).
+      + apply existsb_rest_false in Hrest. rewrite (walk_no_rest _ 16 Hrest).
+        destruct (Nat.leb (length (e0 :: es0)) 16) eqn:Hlen.
+        * apply Nat.leb_le in Hlen. rewrite struct_checks_iff by apply ann_cases. split.
+          -- intros (Hann & Ht & Hdrop & Hf).
+             split; [ split; [ exact Hrest | exact Hlen ] | split; [ exact Hann | ] ].
+             rewrite Ht. cbn [is_ref]. rewrite Ht in Hdrop.
+             split; [ reflexivity | split; [ exact Hdrop | split; [ reflexivity | exact Hf ] ] ].
+          -- intros (_ & Hann & Href & Hdrop & Hfm).
+             destruct (d_ty d) as [q | | |] eqn:Ht; try contradiction. destruct Hfm as [<- Hf].
+             split; [ exact Hann | split; [ reflexivity | split; [ exact Hdrop | exact Hf ] ] ].
+        * apply Nat.leb_gt in Hlen. split; [ discriminate | ]. intros ((_ & Hl) & _). lia.
+    - (* tuple *)
+      destruct (d_elems d) as [| e0 es0] eqn:Hes; [ congruence | ].
+      destruct (existsb is_rest (e0 :: es0)) eqn:Hrest.
+      + assert (Hno : ~ no_rest (e0 :: es0)) by (intros H; apply existsb_rest_false in H; congruence).
+        destruct (walk_names 16 (e0 :: es0)); (split; [ discriminate | intros ((Hr & _) & _); contradiction ]).
+      + apply existsb_rest_false in Hrest. rewrite (walk_no_rest _ 16 Hrest).
+        destruct (Nat.leb (length (e0 :: es0)) 16) eqn:Hlen.
+        * apply Nat.leb_le in Hlen. cbn [forallb check_holds].
+          rewrite !andb_true_iff, R1_exhaustive_patterns, !R2_no_ref_coercion.
+          set (k := length (e0 :: es0)) in *. split.
+          -- intros (Hdecl & Hpat & Hsame & _). rewrite <- Hsame in Hdecl. rewrite <- Hdecl.
+             cbn [is_ref]. repeat split; auto.
+             ++ intros a Ha. unfold declared in Hsame. rewrite Ha in Hsame. congruence.
+             ++ intros (q & Hq & _). discriminate Hq.
+          -- intros (_ & Hann & Href & _ & Hfm).
+             destruct (d_ty d) as [| k' | |] eqn:Ht; try contradiction. subst k'.
+             assert (Hd : declared d (TTuple k) = TTuple k).
+             { unfold declared. destruct (d_ann d) as [a |] eqn:Ha; [ apply Hann; reflexivity | reflexivity ]. }
+             rewrite Hd. cbn. auto.
+        * apply Nat.leb_gt in Hlen. split; [ discriminate | ]. intros ((_ & Hl) & _). lia.
+    - (* array *)
+      destruct (d_elems d) as [| e0 es0] eqn:Hes; [ congruence | ].
+      remember (e0 :: es0) as es eqn:Hesdef.
+      remember (length (filter is_rest es)) as nrest eqn:Hnrest.
+      destruct (Nat.ltb 1 nrest) eqn:Hn.
+      + apply Nat.ltb_lt in Hn. split; [ discriminate | ]. intros (Hr & _). lia.
+      + apply Nat.ltb_ge in Hn. rewrite forallb_app, andb_true_iff, ann_check_holds.
+        cbn [forallb check_holds]. rewrite !andb_true_iff, R1_exhaustive_patterns, R2_no_ref_coercion.
+        assert (Hdecl : forall (Hann : forall a, d_ann d = Some a -> a = d_ty d), declared d (d_ty d) = d_ty d).
+        { intros Hann. rewrite (declared_ann d _ Hann). destruct (d_ann d); reflexivity. }
+        split.
+        * intros (Hann & Hsame & Hpat & _). rewrite (Hdecl Hann) in *.
+          destruct (d_ty d) as [| | n |] eqn:Ht; try discriminate Hsame.
+          unfold pat_fits in Hpat. cbn [peel] in Hpat. cbn [is_ref].
+          split; [ exact Hn | split; [ exact Hann | split; [ reflexivity | split ] ] ].
+          -- intros (q & Hq & _). discriminate Hq.
+          -- revert Hpat. destruct (Nat.eqb_spec nrest 1); destruct (Nat.eqb_spec nrest 0); intros Hpat; lia.
+        * intros (_ & Hann & Href & _ & Hfm). split; [ exact Hann | ].
+          rewrite (Hdecl Hann). destruct (d_ty d) as [| | n |] eqn:Ht; try contradiction.
+          cbn [peel]. split; [ reflexivity | ]. split; [ | reflexivity ].
+          unfold pat_fits. revert Hfm.
+          destruct (Nat.eqb_spec nrest 1); destruct (Nat.eqb_spec nrest 0); intros Hfm; lia.
+  Qed.
+End RustcOracle.
